@@ -796,7 +796,8 @@ class CircuitTemplate(AbstractBaseTemplate):
         if node_values:
             for key, value in node_values.items():
                 *node_id, op, var = key.split("/")
-                target_nodes = self.get_nodes(node_id)
+                # a key that is too short for the hierarchy names a circuit, not a node: nothing would consume the value
+                target_nodes = [n for n in self.get_nodes(node_id) if n in self.get_nodes(['all'])]
                 if not target_nodes:
                     warn(PyRatesWarning(f'Variable {key} has not been found in the network. '
                                         f'The value passed for it is ignored.'))
